@@ -20,6 +20,7 @@ package zenodb
 //@   loop 0 invariant done_rng: forall i in 0..$i :: outIdxs[i] != -1 ==> 0 <= outIdxs[i] && outIdxs[i] < len(outFields)
 //@   loop 0 invariant t3_done_pos: forall i in 0..$i :: outIdxs[i] != -1 ==> old(inFields[i]).Equals(old(outFields[outIdxs[i]]))
 //@   loop 0 invariant done_first: forall i in 0..$i :: forall o in 0..len(outFields) :: o < outIdxs[i] ==> !old(inFields[i]).Equals(old(outFields[o]))
+//@   loop 1 invariant sep: obj(fs.fields) != obj(fileFields)
 //@   loop 1 invariant none_yet: forall o in 0..$i :: !inField.Equals(old(outFields[o]))
 //@   loop 1 invariant bounds: 0 <= $i && $i <= len(outFields)
 //@   nopanic own
@@ -106,6 +107,7 @@ package zenodb
 //@   at call encoding.TimeFromBytes assert ts_from_header: obj(callarg0) == obj(data) && off(callarg0) == off(data) && len(callarg0) == 8
 //@   at call (*zenodb.DB).inPartition assert partition_on_dims: obj(callarg2) == obj(data) && off(callarg2) == off(data) + 12 && len(callarg2) == u32At(data, 8) && callarg3 == t.PartitionBy && callarg4 == t.db.opts.Partition
 //@   at call (*zenodb.table).doInsert assert not_expired: captured(tb) && abs(ts) >= abs(tb)
+//@   at call (*zenodb.table).doInsert assert within_retention: abs(ts) >= lastClock - t.RetentionPeriod
 //@   at call (*zenodb.table).doInsert assert ts_is_entry_time: captured(ts) && callarg1 == ts
 //@   at call (*zenodb.table).doInsert assert in_partition: isFollower ==> captured(inPart) && inPart
 //@   at call (*zenodb.table).doInsert assert dims_are_entry_dims: len(callarg2) == u32At(data, 8) && (forall i in 0..len(callarg2) :: callarg2[i] == data[12+i])
@@ -114,9 +116,20 @@ package zenodb
 //@   at call (*zenodb.table).doInsert assert copies_apart: obj(callarg2) != obj(callarg3)
 //@   at call (*zenodb.table).doInsert assert offset_source_kept: callarg4 == offset && callarg5 == source
 
-// truncateBefore reads the clock and the table options; it writes nothing the admission test depends on.
+// C14: the retention cutoff is exactly (database clock - retention period): no rounding, so a point is refused iff it
+// is older than the retention period at the time it is processed. truncateBefore writes nothing.
 //@ func (*table).truncateBefore
 //@   modifies nothing
+//@   ensures retention_cutoff: abs(result) == lastClock - t.RetentionPeriod
+//@   ghost_ensures lastClock == abs(result) + t.RetentionPeriod
+
+// C02: with no backfill depth configured the WAL resume offsets are not limited by it (zero time = no limit); with one,
+// the limit is exactly (database clock - backfill depth).
+//@ func (*table).backfillTo
+//@   modifies nothing
+//@   ensures no_backfill_limit: t.Backfill == 0 ==> abs(result) == 0
+//@   ensures backfill_cutoff: t.Backfill != 0 ==> abs(result) == lastClock - t.Backfill
+//@   ghost_ensures t.Backfill != 0 ==> lastClock == abs(result) + t.Backfill
 
 // C01/C14 (one accepted point): the WHERE test comes first - a point it rejects neither advances the clock nor reaches
 // the row store; the clock is advanced to the point's own time; every row handed to the row store carries the point's
@@ -154,3 +167,29 @@ package zenodb
 //@   loop 2 modifies nothing
 //@   loop 3 modifies nothing
 //@   loop 0 invariant rest_wf: forall j in $i..len(columns) :: wfSeq(columns[j], fields[j].Expr.EncodedWidth()) && (len(columns[j]) > 0 ==> normalAbs(untilOf(columns[j])))
+
+// C10: leader and follower must hash the partition keys in the same (sorted) order. The leader routes with the slice
+// returned here; the follower-side re-check (table.insert) hashes table.PartitionBy itself and relies on followLeaders
+// having passed that very slice through this function: the keys are sorted IN PLACE and the returned slice is the
+// argument, so the table's own key list ends up in the order the leader hashes in.
+//@ func sortedPartitionKeys
+//@   modifies partitionKeys[0:len(partitionKeys)]
+//@   ensures sorted_in_place: result1 == partitionKeys
+
+// C15: reading a filestore's header. Each header entry is resolved BY NAME (field text) against the table's current
+// fields: a header field the table no longer knows becomes an empty placeholder (its column is then mapped nowhere),
+// a known one becomes a field with exactly that text; positions in the result follow the header, one per entry.
+//@ func (*fileStore).info
+//@   modifies *
+//@   ensures one_per_header_field: result3 == nil ==> len(result2) == len(fieldStrings)
+//@   ensures unknown_is_placeholder: result3 == nil ==> forall i in 0..len(result2) :: (forall q in 0..len(fs.fields) :: fs.fields[q].String() != fieldStrings[i]) ==> result2[i].Name == "" && result2[i].Expr == nil
+//@   ensures known_by_name: result3 == nil ==> forall i in 0..len(result2) :: !(forall q in 0..len(fs.fields) :: fs.fields[q].String() != fieldStrings[i]) ==> result2[i].String() == fieldStrings[i]
+//@   loop 0 invariant len_is: len(fileFields) == $i && fresh(fileFields) && 0 <= $i && $i <= len(fieldStrings)
+//@   loop 0 invariant sep: obj(fs.fields) != obj(fileFields)
+//@   loop 0 invariant done_unknown: forall i in 0..$i :: (forall q in 0..len(fs.fields) :: fs.fields[q].String() != fieldStrings[i]) ==> fileFields[i].Name == "" && fileFields[i].Expr == nil
+//@   loop 0 invariant done_known: forall i in 0..$i :: !(forall q in 0..len(fs.fields) :: fs.fields[q].String() != fieldStrings[i]) ==> fileFields[i].String() == fieldStrings[i]
+//@   loop 1 modifies nothing
+//@   loop 1 invariant sep: obj(fs.fields) != obj(fileFields)
+//@   loop 1 invariant none_yet: forall q in 0..$i :: fs.fields[q].String() != fieldString
+//@   loop 1 invariant bounds: 0 <= $i && $i <= len(fs.fields)
+
